@@ -8,6 +8,7 @@
             5 k idx value    l[k][idx] = NewVariant(host)
             6 k value        l[k] = append(l[k], NewVariant(host))
             7 k              l[k] = l[k][:0]
+            8 i idx value    v[i].GetByIndex(idx).SetAsObject(host)   (an element the array got by growing, never shared)
    output = L [L [registers; lists; equals-matrix] ...] after each operation; value = L [I type; payload] as for C06 *)
 From Coq Require Import List ZArith Bool.
 Import ListNotations.
@@ -39,6 +40,7 @@ Definition dec_op20 (s : sx) : op :=
   | 4 => OSetLength a (gnat (nth_sx 2 s))
   | 5 => OListWrite a (gnat (nth_sx 2 s)) (dec_v 5 (nth_sx 3 s))
   | 6 => OListAppend a (dec_v 5 (nth_sx 2 s))
+  | 8 => OSetElem a (gnat (nth_sx 2 s)) (dec_v 5 (nth_sx 3 s))
   | _ => OListTruncate a
   end.
 
